@@ -215,6 +215,9 @@ func RunLong(w *World, o LongOpts) error {
 				for a := 0; a < 40 && !fired; a++ {
 					fired = w.TruncateInterrupted(n, d, 1+w.R.Intn(40))
 				}
+				if n.Abandoned {
+					return nil
+				}
 				if fired {
 					d.grow(20+w.R.Intn(40), 0)
 					for a := 0; a < 30; a++ {
@@ -306,6 +309,9 @@ type balAns struct {
 
 // TruncateChecked runs one truncation of node n framed by the C07 oracle.
 func (w *World) TruncateChecked(n *Node, d *Driver, race bool) {
+	if n.Abandoned {
+		return
+	}
 	before := w.Observe(n, OpInfo{Kind: "milestone", OK: true})
 	// the genesis issuer is not a wallet with a balance (its net flow is negative by construction; the code reports
 	// an error for it before and 0 after its spend is checkpointed): it is excluded, as in C02
@@ -848,6 +854,15 @@ func (w *World) TruncateInterrupted(n *Node, d *Driver, m int) bool {
 		return false
 	}
 	w.NontrivFor("C07", fmt.Sprintf("interrupted/after%d/dups%d/err=%v", bucket(m), bucket(len(after.Dup)), err != nil))
+	if fmt.Sprint(before.Funds) != fmt.Sprint(after.Funds) {
+		// m was exactly the number of vertices below the cut: the cancellation was noticed only in the cutting walk, after
+		// the funds had been written. Everything below the cut is counted twice from now on (DESIGN 5.4, outside the
+		// quantifiers: in the shipped code this context ends with the process).
+		n.Abandoned = true
+		w.Res.Count("c07_interruptions_noticed_after_the_funds_were_written", 1)
+		w.Logf("%s is not judged any further: the interruption landed between writing the funds and cutting the vertices", n.Name)
+		return true
+	}
 	w.checkInterruptedState(n, before, after, fmt.Sprintf("truncation interrupted after %d vertices were persisted", m))
 	return true
 }
